@@ -10,12 +10,14 @@ Once == done = 0 /\ done' = 1 /\ l' = l
 Died(e) == e.k \in {"hang", "abort"}
 Report(tag, why) == PrintT("@@" \o tag \o "|" \o ToString(l) \o "|" \o why)
 
-\* e = [text, zone, res, wire, rk (result of giving the name to a record: ok/err/panic/none), rb (name() afterwards)]
+\* e = [text, zone, res, wire, rk (result of giving the name to a record: ok/err/panic/none), rb (name() afterwards),
+\*      app (copy_raw_name_from_str into vectors holding 1, 2, 100, 250, 300 bytes: same verdict, prefix kept, same bytes)]
 C14Why(e) ==
   LET w == ConvWhy(e.text, e.zone, e.res, e.wire) IN
   IF w # "" THEN w
   ELSE IF e.res = "ok" /\ Len(e.text) > 0 /\ e.rk = "ok" /\ e.rb # ReadBackText(e.text, e.zone)
        THEN "a record given the converted name does not read back as the lower-cased input"
+  ELSE IF ~e.app THEN "appending the converted name to a vector that already holds bytes gives another verdict or other bytes than converting it alone"
   ELSE ""
 Fact(e) == IF MustAccept(e.text, e.zone) THEN "must-accept" ELSE IF MustReject(e.text, e.zone) THEN "must-reject" ELSE "unspecified"
 C14(e) == LET w == C14Why(e) IN
